@@ -2066,6 +2066,83 @@ def gen_cauchy_init():
 GENERATORS["CauchyInit.v"] = gen_cauchy_init
 
 
+def gen_get_bounds():
+    """base.get_bounds: the validation of x0 against the bounds - which ValueError is raised, in which order, with which message
+    (the f-string of the last one is translated piece by piece) - for bounds given with the length of x0 (lb, ub = old_bound_to_new)."""
+    L = ["(* GENERATED from /repo/lbfgsb/base.py by harness/translate.py - do not edit *)",
+         "From Coq Require Import List Bool Arith String DecimalString Floats.PrimFloat.", "From LBFGSB Require Import Model.FloatVec Model.NumpyOps.", "Import ListNotations.", "Local Open Scope string_scope.", ""]
+    fn = _func(_unann(ast.parse(_src("base.py"))), "get_bounds")
+    if [a.arg for a in fn.args.args] != ["x0", "bounds"]:
+        raise TranslateError("get_bounds: unexpected parameters")
+    body = [s for s in fn.body if not (isinstance(s, ast.Expr) and isinstance(s.value, ast.Constant))]
+    u = [ast.unparse(s) for s in body]
+    fixed = {0: "n = x0.shape[0]", 2: "if bounds is None:\n    bounds = np.repeat(np.array([(-np.inf, np.inf)]), n, axis=0)",
+             3: "if len(bounds) != n:\n    raise ValueError('Length of x0 != length of bounds')", 4: "lb, ub = old_bound_to_new(bounds)", 7: "return (lb, ub)"}
+    if len(u) != 8 or any(u[i] != t for i, t in fixed.items()):
+        raise TranslateError("get_bounds: unexpected statements: " + " | ".join(x[:70] for x in u))
+
+    def raise_of(st):
+        if not (isinstance(st, ast.If) and not st.orelse and len(st.body) == 1 and isinstance(st.body[0], ast.Raise) and isinstance(st.body[0].exc, ast.Call)
+                and ast.unparse(st.body[0].exc.func) == "ValueError" and len(st.body[0].exc.args) == 1):
+            raise TranslateError("get_bounds: expected `if <test>: raise ValueError(<message>)`, found " + ast.unparse(st)[:80])
+        return st.test, st.body[0].exc.args[0]
+
+    def cmp_any(n):
+        # (a < b).any() / (a > b).any() on arrays
+        if isinstance(n, ast.Call) and isinstance(n.func, ast.Attribute) and n.func.attr == "any" and not n.args and isinstance(n.func.value, ast.Compare) \
+                and len(n.func.value.ops) == 1 and isinstance(n.func.value.ops[0], (ast.Lt, ast.Gt)):
+            c_ = n.func.value
+            a, b = ast.unparse(c_.left), ast.unparse(c_.comparators[0])
+            if {a, b} <= {"x0", "lb", "ub"}:
+                lo, hi = (a, b) if isinstance(c_.ops[0], ast.Lt) else (b, a)
+                return f"(existsb (fun b_ => b_) (bmap2 PrimFloat.ltb {lo} {hi}))"
+        if isinstance(n, ast.BoolOp) and isinstance(n.op, ast.Or):
+            return "(" + " || ".join(cmp_any(v) for v in n.values) + ")"
+        raise TranslateError("get_bounds: unsupported test " + ast.unparse(n))
+
+    def count(n):
+        # np.count_nonzero(a < b)
+        if isinstance(n, ast.Call) and ast.unparse(n.func) == "np.count_nonzero" and len(n.args) == 1 and isinstance(n.args[0], ast.Compare) \
+                and len(n.args[0].ops) == 1 and isinstance(n.args[0].ops[0], (ast.Lt, ast.Gt)):
+            c_ = n.args[0]
+            a, b = ast.unparse(c_.left), ast.unparse(c_.comparators[0])
+            if {a, b} <= {"x0", "lb", "ub"}:
+                lo, hi = (a, b) if isinstance(c_.ops[0], ast.Lt) else (b, a)
+                return f"(List.length (List.filter (fun b_ => b_) (bmap2 PrimFloat.ltb {lo} {hi})))"
+        raise TranslateError("get_bounds: unsupported count " + ast.unparse(n))
+
+    def msg(n):
+        if isinstance(n, ast.Constant) and isinstance(n.value, str):
+            return coq_string(n.value)
+        if isinstance(n, ast.JoinedStr):
+            parts = []
+            for v in n.values:
+                if isinstance(v, ast.Constant):
+                    parts.append(coq_string(v.value))
+                elif isinstance(v, ast.FormattedValue) and v.conversion == -1 and v.format_spec is None:
+                    parts.append(f"nat_str {count(v.value)}")      # str() of a NumPy integer: its decimal digits
+                else:
+                    raise TranslateError("get_bounds: unsupported f-string field")
+            return "(" + " ++ ".join(parts) + ")"
+        raise TranslateError("get_bounds: unsupported message " + ast.unparse(n))
+    t1, m1 = raise_of(body[1])
+    if ast.unparse(t1) != "n == 0":
+        raise TranslateError("get_bounds: the first test is not n == 0")
+    t5, m5 = raise_of(body[5])
+    t6, m6 = raise_of(body[6])
+    L.append("(* decimal digits of a natural number *)")
+    L.append("Definition nat_str (n : nat) : string := NilZero.string_of_uint (Nat.to_uint n).")
+    L.append("(* None: the bounds are accepted; Some (class, message): the exception raised.  lb, ub have the length of x0 *)")
+    L.append("Definition get_bounds_error (x0 lb ub : vec) : option (string * string) :=\n"
+             f"  match x0 with [] => Some (\"ValueError\", {msg(m1)}) | _ :: _ =>\n"
+             f"  if {cmp_any(t5)} then Some (\"ValueError\", {msg(m5)})\n"
+             f"  else if {cmp_any(t6)} then Some (\"ValueError\", {msg(m6)})\n  else None end.")
+    return "\n".join(L) + "\n"
+
+
+GENERATORS["GetBounds.v"] = gen_get_bounds
+
+
 def generate():
     """Write the generated files. Returns a list of error strings (empty = ok)."""
     os.makedirs(OUT, exist_ok=True)
